@@ -16,6 +16,25 @@ theorem run_bind {α β : Type} (m : Q α) (f : α → Q β) (e : Env) :
   | ask q k ih => simp only [Q.bind, Q.run]; exact ih _ _
 end Q
 
+namespace Q
+theorem bind_pure' {α : Type} (x : Q α) : Q.bind x Q.pure = x := by
+  induction x with
+  | pure a => rfl
+  | ask q k ih => simp only [Q.bind]; congr; funext a; exact ih a
+
+theorem bind_assoc' {α β γ : Type} (x : Q α) (f : α → Q β) (g : β → Q γ) :
+    Q.bind (Q.bind x f) g = Q.bind x (fun a => Q.bind (f a) g) := by
+  induction x with
+  | pure a => rfl
+  | ask q k ih => simp only [Q.bind]; congr; funext a; exact ih a
+
+/-- `Q` is a lawful monad, hence so is `M` (`pure_bind`, `bind_assoc` are available to `simp`) -/
+instance : LawfulMonad Q := LawfulMonad.mk'
+  (id_map := fun x => bind_pure' x)
+  (pure_bind := fun _ _ => rfl)
+  (bind_assoc := fun x f g => bind_assoc' x f g)
+end Q
+
 namespace M
 
 /-- the result of running `m`, as `Except` with final local state, plus final environment -/
@@ -82,17 +101,6 @@ theorem Sat.weaken {α : Type} {m : M α} {P R : α → Prop} {E F : Exn → Pro
   | ok v => exact h _ h1
   | error x => exact hE _ h1
 
-theorem Sat.and {α : Type} {m : M α} {P R : α → Prop} {E : Exn → Prop} (h1 : Sat m P E) (h2 : Sat m R E) :
-    Sat m (fun a => P a ∧ R a) E := by
-  intro l e
-  have a := h1 l e
-  have b := h2 l e
-  rcases hr : m.run l e with ⟨r, e'⟩
-  rw [hr] at a b
-  cases r with
-  | ok v => exact ⟨a, b⟩
-  | error x => exact a
-
 theorem Sat.trivial {α : Type} (m : M α) : Sat m (fun _ => True) (fun _ => True) := by
   intro l e
   rcases m.run l e with ⟨r, e'⟩
@@ -122,6 +130,78 @@ theorem Sat.ok {α : Type} {m : M α} {P : α → Prop} {E : Exn → Prop} (h : 
 theorem Sat.err {α : Type} {m : M α} {P : α → Prop} {E : Exn → Prop} (h : Sat m P E)
     {l e x e'} (hr : m.run l e = (.error x, e')) : E x := by
   have := h l e; rw [hr] at this; exact this
+
+/-! ### more rules -/
+
+theorem Sat.and {α : Type} {m : M α} {P R : α → Prop} {E : Exn → Prop}
+    (h1 : Sat m P E) (h2 : Sat m R E) : Sat m (fun a => P a ∧ R a) E := by
+  intro l e
+  have a1 := h1 l e
+  have a2 := h2 l e
+  rcases hr : m.run l e with ⟨r, e'⟩
+  rw [hr] at a1 a2
+  cases r with
+  | ok v => exact ⟨a1, a2⟩
+  | error x => exact a1
+
+/-- bind with nothing known about the first computation -/
+theorem Sat.bind_any {α β : Type} {m : M α} {f : α → M β} {R : β → Prop}
+    (hf : ∀ a, Sat (f a) R) : Sat (m >>= f) R :=
+  Sat.bind (Sat.trivial m) (fun a _ => hf a)
+
+/-- continuation-style bind: convenient with `apply` (no intermediate assertion to supply) -/
+theorem Sat.bind' {α β : Type} {m : M α} {f : α → M β} {R : β → Prop} {E : Exn → Prop}
+    (hm : Sat m (fun a => Sat (f a) R E) E) : Sat (m >>= f) R E :=
+  Sat.bind hm (fun _ h => h)
+
+theorem Sat.map {α β : Type} {m : M α} {f : α → β} {P : β → Prop} {E : Exn → Prop}
+    (h : Sat m (fun a => P (f a)) E) : Sat (f <$> m) P E := by
+  rw [map_eq_pure_bind]
+  exact Sat.bind h (fun a ha => Sat.pure ha)
+
+theorem Sat.ite {α : Type} {c : Prop} [Decidable c] {a b : M α} {P : α → Prop} {E : Exn → Prop}
+    (ha : c → Sat a P E) (hb : ¬ c → Sat b P E) : Sat (if c then a else b) P E := by
+  split
+  · exact ha ‹_›
+  · exact hb ‹_›
+
+theorem Sat.get {P : Local → Prop} {E : Exn → Prop} (h : ∀ l, P l) :
+    Sat (get : M Local) P E := by
+  intro l e; exact h l
+
+theorem Sat.getThe {P : Local → Prop} {E : Exn → Prop} (h : ∀ l, P l) :
+    Sat (getThe Local : M Local) P E := by
+  intro l e; exact h l
+
+theorem Sat.set {P : Unit → Prop} {E : Exn → Prop} {l : Local} (h : P ()) :
+    Sat (set l : M Unit) P E := by
+  intro _ e; exact h
+
+theorem Sat.modify {P : Unit → Prop} {E : Exn → Prop} {f : Local → Local} (h : P ()) :
+    Sat (modify f : M Unit) P E := by
+  intro _ e; exact h
+
+theorem Sat.unit {m : M Unit} : Sat m (fun _ => True) := Sat.trivial m
+
+/-- `for x in l do …` over a list (`forIn`), with an invariant indexed by the elements still to
+    be visited -/
+theorem Sat.forIn_list {α β : Type} {f : α → β → M (ForInStep β)} {R : β → Prop}
+    {E : Exn → Prop} (I : List α → β → Prop)
+    (hstep : ∀ a rest b, I (a :: rest) b →
+      Sat (f a b) (fun r => match r with | .yield b' => I rest b' | .done b' => R b') E)
+    (hdone : ∀ b, I [] b → R b) :
+    ∀ (l : List α) (b : β), I l b → Sat (forIn l b f) R E := by
+  intro l
+  induction l with
+  | nil => intro b hb; rw [List.forIn_nil]; exact Sat.pure (hdone b hb)
+  | cons a rest ih =>
+    intro b hb
+    rw [List.forIn_cons]
+    refine Sat.bind (hstep a rest b hb) ?_
+    intro r hr
+    cases r with
+    | done b' => exact Sat.pure hr
+    | yield b' => exact ih b' hr
 
 end M
 end Bashlex
